@@ -138,6 +138,8 @@ def whileBaseline : List (String × String × String × String) := [
   ("tree_builders.py", "build_node_tree", "True", "argued: iterator stack over a finite element tree"),
   ("tree_builders.py", "build_lxml_node_tree", "True", "argued: iterator stack over a finite element tree"),
   ("tree_builders.py", "build_schema_node_tree", "True", "argued: iterator stack, schema recursion cut by the ancestors list"),
+  ("xpath1/_xpath1_functions.py", "evaluate__lang", "node is not None", "argued: node = node.parent walks the parent chain of a finite node tree (parents are set once by the tree builders, acyclic) up to None (added by the fn:lang fix 67902de)"),
+  ("xpath2/_xpath2_functions.py", "evaluate__lang", "node is not None", "argued: as xpath1 evaluate__lang: parent chain of a finite node tree"),
   ("xpath1/_xpath1_operators.py", "select__predicate", "step.symbol == '[' and step.label != 'array'", "argued: walks down the finite left spine of predicates"),
   ("xpath2/_xpath2_functions.py", "select__one_or_more", "True", "argued: consumes a generator, StopIteration ends it"),
   ("xpath2/_xpath2_operators.py", "nud__quantified_expressions", "True", "argued: each iteration advances over `$var in expr`; breaks unless next token is ','; advance consumes (advance_consumes)"),
